@@ -37,7 +37,7 @@ JOINT_TOL0 = 1e-5
 
 def strategy(ctx):
     rng = ctx.rng("c03-pool")
-    size = 3 if ctx.tier == "quick" else 24
+    size = 3 if ctx.tier == "quick" else 6
     pool_fixed = [ssmcase.draw_structure(rng, strategies=("fixedinterval",), steps=(2, 10)) for _ in range(size)]
     pool_fp = []
     for _ in range(max(1, size // 2)):
